@@ -61,6 +61,13 @@ for norm in (L1, L2, LMAX):
         quick.append(job("c16.norm", secs=60, qto=QTO, n=1, p=2, norm=norm, scale=scale, B=8))
         quick.append(job("c16.norm", secs=60, qto=QTO, n=2, p=1, norm=norm, scale=scale, B=8))
 
+# entries whose squares under- or overflow (2^-1030, 2^520): the norms themselves are representable
+# ("inexact": subnormal / huge products are outside the exactness analysis; obligations carry tolerances)
+for norm in (L1, L2, LMAX):
+    for scale in (-1030, 520):
+        quick.append(job("c16.norm", secs=60, qto=QTO, allow=("inexact",), n=1, p=2, norm=norm, scale=scale, B=8))
+        quick.append(job("c16.norm", secs=60, qto=QTO, allow=("inexact",), n=2, p=1, norm=norm, scale=scale, B=8))
+
 # recorded defect role: an all-zero row is divided by its zero norm (NaN) -- "keeps all output finite" fails
 defects = [job("c16.norm", secs=30, n=2, p=2, norm=norm, zero=0) for norm in (L1, L2, LMAX)]
 
